@@ -66,6 +66,10 @@ type Policy struct {
 	Lenient         bool          // accept a TGS authenticator whose crealm differs from the ticket's, but record it
 	SendEncPARep    bool          // RFC 6806 §11: answer PA-REQ-ENC-PA-REP
 	ExpiredGrace    time.Duration // a presented ticket is still honoured this long after its end time (KDCs apply their clock skew here)
+	// LegacyInfo: the pre-authentication hints also carry a PA-ETYPE-INFO for old clients that names ANOTHER etype (and
+	// another salt) than the PA-ETYPE-INFO2: "after" = behind the ETYPE-INFO2, "before" = in front of it. RFC 4120
+	// 5.2.7.5: a client that understands ETYPE-INFO2 ignores the ETYPE-INFO.
+	LegacyInfo string
 }
 
 // Issued is one entry of the issue log.
@@ -440,10 +444,20 @@ func (r *Realm) handleAS(raw []byte) []byte {
 		return der.ETypeInfo2.MustEncode([]any{e})
 	}
 	methodData := func() []byte {
-		return der.PADataSeq.MustEncode([]any{
-			der.M{"padata-type": int64(19), "padata-value": info()},
-			der.M{"padata-type": int64(2), "padata-value": []byte{}},
-		})
+		els := []any{der.M{"padata-type": int64(19), "padata-value": info()}, der.M{"padata-type": int64(2), "padata-value": []byte{}}}
+		if r.Policy.LegacyInfo != "" {
+			other := int32(ref.DES3)
+			if et == ref.DES3 {
+				other = ref.RC4
+			}
+			legacy := der.M{"padata-type": int64(11), "padata-value": der.ETypeInfo.MustEncode([]any{der.M{"etype": int64(other), "salt": []byte("legacy-salt-for-old-clients")}})}
+			if r.Policy.LegacyInfo == "before" {
+				els = append([]any{legacy}, els...)
+			} else {
+				els = append(els, legacy)
+			}
+		}
+		return der.PADataSeq.MustEncode(els)
 	}
 	// pre-authentication
 	var paTS []byte
